@@ -247,6 +247,8 @@ namespace hmac_cpp {
     secure_buffer<uint8_t, true> hkdf_extract_sha256_secure(
             const void* ikm_ptr, size_t ikm_len,
             const void* salt_ptr, size_t salt_len) {
+        if (salt_ptr == nullptr && salt_len > 0)
+            throw std::invalid_argument("HKDF: null salt with non-zero length");
         std::vector<uint8_t> salt_buf;
         if (salt_ptr == nullptr || salt_len == 0) {
             salt_buf.assign(hmac_hash::SHA256::DIGEST_SIZE, 0);
